@@ -265,7 +265,7 @@ def gen(tier, rng):
                 calls += [[2, 0], [2, 1]]
         yield [sc2, [0, calls]]
     # 3. random: n <= 4 (quick) / 6, direct and under the three managers
-    for _ in range(2500 if quick else 40000):
+    for _ in range(2500 if quick else 30000):
         n = rng.randint(1, 4 if quick else 6)
         sc = random_script(rng, n)
         p = rng.choice([0.2, 0.5, 0.8, 1.0])
